@@ -60,6 +60,23 @@ CHECKS = {
         "variables after the loop are never observed.",
         "DESIGN.md section 5 C04",
     ),
+    "C05": (
+        "property-based differential testing of generated do/catch/finally "
+        "nests against the reference evaluator, with an in-program event "
+        "log; each scenario run plain and inside an outer catch-all; mutant "
+        "models as non-triviality measure",
+        "Generated nests of blocks with catch clauses (values of every data "
+        "kind, catch all) and finally parts, in functions and loops, with a "
+        "failing statement (user error, runtime ERROR of five kinds, error "
+        "raised in a callee), exits and nested blocks at random positions, "
+        "handlers that log / yield / re-raise / exit and finally parts that "
+        "log or raise. The interpreter's result or escaping error value and "
+        "the event log must equal the reference evaluator's; five mutant "
+        "models measure discriminating power.",
+        "Trusted: the reference evaluator's block semantics; exits directly "
+        "inside finally parts are not generated; messages are not compared.",
+        "DESIGN.md section 5 C05",
+    ),
     "C06": (
         "property-based testing (Hypothesis): equivalence laws, hash "
         "consistency and agreement with a model equality on the ckl.values "
